@@ -215,13 +215,18 @@ fn primitives(d: &mut Dec, cx: &mut Cx, thick_joins: bool) -> Res {
         let q = |d: &mut Dec| Point::new(d.i(-scale, scale), d.i(-scale, scale));
         if d.bool() {
             let a = q(d);
-            let b = if d.ratio(1, 8) { a } else { q(d) };
+            let sliver = d.ratio(1, 4);
+            // slivers: two vertices one or two pixels apart, the third far away (very acute corner)
+            let b = if sliver { a + Point::new(d.i(-2, 2), d.i(-2, 2)) } else if d.ratio(1, 8) { a } else { q(d) };
             let c = match d.u(0, 7) {
-                0 => a,
-                1 => b,
+                0 if !sliver => a,
+                1 if !sliver => b,
                 2 => a + (b - a) * 2 / 3,
                 _ => q(d),
             };
+            if sliver && d.bool() {
+                style.stroke_width = d.pick(&[20u32, 64, 99, 127, 128]).min(if scale > 300 { 20 } else { 128 });
+            }
             Item::Styled(Shape::Triangle(Triangle::new(a, b, c)), style)
         } else {
             let n = d.u(0, 7);
